@@ -19,7 +19,8 @@ def run_one(args):
         out["error"] = "patch does not apply: " + (r.stdout + r.stderr)[-300:]
         return out
     env = dict(os.environ, VERIF_REPO=d, VERIF_EVIDENCE_DIR=os.path.join(SCRATCH, f"slot{slot}", "evidence"), VERIF_SEED=os.environ.get("VERIF_SEED", "1"))
-    for prop in meta["our_checks"]["caught_by"]:
+    expected_miss = not meta["our_checks"]["caught_by"]
+    for prop in meta["our_checks"]["caught_by"] or meta["our_checks"].get("not_caught_by", []):
         t0 = time.time()
         try:
             p = subprocess.run([os.path.join(ROOT, "bin", "check"), prop, "quick"], cwd=ROOT, env=env, capture_output=True, text=True, timeout=1800)
@@ -30,7 +31,7 @@ def run_one(args):
         for line in text.splitlines():
             if line.startswith("case detail: signature="):
                 sig = line[len("case detail: signature="):].split(" :: ")[0]
-        out["runs"].append({"prop": prop, "caught": code == 1 and ("VIOLATION property=" + prop) in text, "exit": code, "signature": sig, "secs": round(time.time() - t0, 1)})
+        out["runs"].append({"prop": prop, "caught": code == 1 and ("VIOLATION property=" + prop) in text, "exit": code, "signature": sig, "secs": round(time.time() - t0, 1), "expected_miss": expected_miss})
     return out
 
 def main():
@@ -53,7 +54,7 @@ def main():
             if "error" in r:
                 f.write(f"| {r['id']} | | ERROR | {r['error']} | |\n"); continue
             for run in r["runs"]:
-                f.write(f"| {r['id']} | {run['prop']} | {'yes' if run['caught'] else 'NO (exit %d)' % run['exit']} | {run['signature']} | {run['secs']} |\n")
+                f.write(f"| {r['id']} | {run['prop']} | {'yes' if run['caught'] else ('not decided by this check (exit %d), see meta.json' if run.get('expected_miss') else 'NO (exit %d)') % run['exit']} | {run['signature']} | {run['secs']} |\n")
     for r in res:
         if "error" in r: print(r["id"], "ERROR", r["error"]); continue
         for run in r["runs"]:
@@ -62,7 +63,7 @@ def main():
     for dname in os.listdir(os.path.join(ROOT, "target")):
         if dname.startswith("alt-") or dname.startswith("c19-alt-"):
             pass  # left for incremental reuse; remove with: rm -rf target/alt-* target/c19-alt-*
-    bad = [r for r in res if "error" in r or not all(x["caught"] for x in r["runs"])]
+    bad = [r for r in res if "error" in r or not all(x["caught"] or x.get("expected_miss") for x in r["runs"])]
     sys.exit(1 if bad else 0)
 
 if __name__ == "__main__":
